@@ -43,10 +43,13 @@ def main():
     rc, out = sh("git status --porcelain", wt)
     if out.strip():
         print("refusing: worktree is not clean:\n" + out); return 2
+    # the scratch worktree follows /repo's HEAD (fix: commits land there while seeded changes are being evaluated)
+    head = sh("git -C /repo rev-parse HEAD")[1].strip()
+    sh("git checkout -q --detach %s" % head, wt)
     os.makedirs("/tmp/seedv", exist_ok=True)
     sh("rsync -a --delete --exclude .git --exclude replays --exclude seeded %s/ %s/" % (VERIF, vcopy))
     os.makedirs(os.path.join(vcopy, "replays"), exist_ok=True)
-    res = {"property": pid, "k": k, "ran_at": time.strftime("%Y-%m-%d %H:%M:%S"),
+    res = {"property": pid, "k": k, "ran_at": time.strftime("%Y-%m-%d %H:%M:%S"), "repo_commit": head[:7],
            "verif_commit": sh("git rev-parse --short HEAD", VERIF)[1].strip(),
            "verif_dirty": bool(sh("git status --porcelain -- harness translator lean tools check", VERIF)[1].strip())}
     env = dict(os.environ, PYTHONPATH=wt)
